@@ -42,6 +42,9 @@ type Config struct {
 	WrapDB func(walletdb.DB) walletdb.DB
 	// Tweak lets a check adjust the client configuration.
 	Tweak func(*neutrino.Config)
+	// AfterStart is called right after ChainService.Start returned and
+	// before any peer connection is allowed to be established.
+	AfterStart func(s *Sim)
 	// KeepDir: do not delete the data directory (caller does).
 	KeepDir bool
 }
@@ -60,6 +63,7 @@ type Sim struct {
 	lies     map[int]*liePlan
 	hdrLog   []SentHeaders
 	spin     *spinDB
+	gate     chan struct{}
 	Requests int
 	stopped  bool
 }
@@ -280,6 +284,10 @@ func NewDataDir(w *kit.World, n, fn int) (string, error) {
 	return dir, nil
 }
 
+// resetYield is set by hook_verif.go (verif tag) and clears the per-run state
+// of the yield hook.
+var resetYield = func() {}
+
 var logOnce sync.Once
 
 func setupLogging() {
@@ -352,7 +360,9 @@ func Run(t *testing.T, cfg Config, setup func(s *Sim), script func(s *Sim)) (res
 		}
 	}()
 
+	resetYield()
 	synctest.Test(t, func(t *testing.T) {
+		s.gate = make(chan struct{})
 		raw, err := OpenDB(dir, false)
 		if err != nil {
 			res.Harness = "open db: " + err.Error()
@@ -394,6 +404,7 @@ func Run(t *testing.T, cfg Config, setup func(s *Sim), script func(s *Sim)) (res
 				if stopped {
 					return nil, fmt.Errorf("simulation over")
 				}
+				<-s.gate
 				cl, sv := bufPipe(&net.TCPAddr{IP: net.ParseIP("10.9.9.9"), Port: 5555}, a)
 				go p.Serve(sv)
 				return cl, nil
@@ -414,6 +425,10 @@ func Run(t *testing.T, cfg Config, setup func(s *Sim), script func(s *Sim)) (res
 			raw.Close()
 			return
 		}
+		if cfg.AfterStart != nil {
+			cfg.AfterStart(s)
+		}
+		close(s.gate)
 		s.Settle()
 
 		script(s)
